@@ -308,7 +308,7 @@ def kind_a(report):
 def check(argv):
     tier, seed = env_tier_seed(argv)
     report = Report("C09", tier, seed, "other", f"./vt check C09 --tier {tier}")
-    kind_a(report)
+    report.guarded("items/from_aos permutation obligation", kind_a, report)
     max_order = 3 if tier == "quick" else 4
     for o in range(0, max_order + 1):
         ALL_FORMATS[o] = all_format_texts(o)
